@@ -16,8 +16,13 @@ def impl(case: list[str]) -> list[str]:
     return run_case(case)
 
 
+def model(case: list[str]) -> list[str]:
+    from harness.cmdmgr import model_lines
+    return model_lines(case)
+
+
 def mutant(variant: str) -> Callable[[list[str]], list[str]]:
-    return lambda c: [c[0][:-2] + variant] + c[1:]
+    return lambda c: model([c[0][:-2] + variant] + c[1:])
 
 
 def count_ops(ctx: Check, case: list[str], out: list[str]) -> None:
@@ -66,11 +71,12 @@ def streams(ctx: Check, profiles: list[str], n_random: int, exh_len: int, n_malf
     exh = exhaustive_cases(exh_len)
     mal = [malformed_case(rng) for _ in range(n_malformed)]
     all_cases: list[tuple[list[str], list[str]]] = []
-    for name, cases in ((prefix + "-corpus", corpus), (prefix + "-random", rnd),
-                        (prefix + f"-exhaustive-len{exh_len}", exh), (prefix + "-malformed", mal)):
+    # (every stream costs one start of the model driver: corpus and malformed streams ride with the random one)
+    for name, cases in ((prefix + "-corpus+malformed+random", corpus + mal + rnd),
+                        (prefix + f"-exhaustive-len{exh_len}", exh)):
         if not cases:
             continue
-        out, mout = ctx.correspond(name, DRIVER, cases, lambda c: c, impl, nontrivial=nontrivial)
+        out, mout = ctx.correspond(name, DRIVER, cases, model, impl, nontrivial=nontrivial)
         if name.endswith("random") and mout:
             ctx.selftest(name, DRIVER, cases, mutant("00"), mout)
         for c, o in zip(cases, out):
@@ -84,7 +90,7 @@ def streams(ctx: Check, profiles: list[str], n_random: int, exh_len: int, n_malf
     # the decidable invariants of OPM.Model.CmdMgrSpec (object invariant, lifecycle discipline, record/mark
     # coherence incl. the not-proved "started => conclusive or still held") evaluated by the model on every stream
     from vp.core import drive
-    chk_cases = [[c[0]] + [x for ln in c[1:] for x in (ln, "chk")] for c, _ in all_cases]
+    chk_cases = [model([c[0]] + [x for ln in c[1:] for x in (ln, "chk")]) for c, _ in all_cases]
     bad = 0
     for c, out in zip(chk_cases, drive(DRIVER, chk_cases)):
         for ln, a in zip(c, out):
@@ -107,7 +113,17 @@ def load_corpus(prop_id: str) -> list[dict[str, Any]]:
 # ------------------------------------------------------------------------------------------------ engine level
 
 def gen_engine_case(rng: random.Random, kind: str) -> dict[str, Any]:
-    from harness.cmd_engine import gen_method, gen_snippet
+    from harness.cmd_engine import gen_method, gen_pause_hold, gen_snippet
+    if kind == "c12" and rng.random() < 0.2:
+        # a timed Hold and a timed Pause in effect together; either is cancelled (or forced) at any tick
+        ticks = rng.choice([30, 40])
+        sched: dict[str, list] = {}
+        for _ in range(rng.randrange(1, 4)):
+            op = [rng.choice(["cancel", "cancel", "force"]), ["name", rng.choice(["Hold", "Pause"]), 0]]
+            sched.setdefault(str(rng.randrange(3, 22)), []).append(op)
+        if rng.random() < 0.25:
+            sched.setdefault(str(rng.randrange(3, 16)), []).append(["user", rng.choice(["Pause", "Hold"])])
+        return {"kind": "engine", "pcode": gen_pause_hold(rng), "ticks": ticks, "sched": sched, "failing": False}
     failing = kind == "c11" and rng.random() < 0.35
     bad_args = kind in ("c11", "c10") and rng.random() < 0.3
     pcode = gen_method(rng, failing=failing, engine_cmds=kind != "c11" or rng.random() < 0.3, bad_args=bad_args,
@@ -126,16 +142,19 @@ def gen_engine_case(rng: random.Random, kind: str) -> dict[str, Any]:
         t_stop = rng.randrange(4, ticks - 6) if rng.random() < 0.4 else ticks - 5
         # every run ends: "finalized by then" is judged on every case
         at(t_stop, ["user", rng.choice(["Stop", "Restart"]) if t_stop != ticks - 5 else "Stop"])
-        for _ in range(rng.choice([0, 0, 1, 1, 2])):     # commands from the user's command buttons
+        for _ in range(rng.choice([0, 0, 0, 0, 0, 1, 1, 2])):     # commands from the user's command buttons
             at(rng.choice([t_stop + 1, rng.randrange(2, ticks - 2), rng.randrange(2, ticks - 2)]),
                ["user", rng.choice(["CmdA", "CmdB", "CmdC", "CmdD"])])
     elif kind == "c10":
         t_stop = rng.randrange(3, ticks - 8)
         at(t_stop, ["user", rng.choice(["Stop", "Stop", "Restart"])])
+        # Stop / Restart also out of a pause or hold of the user (no timed Pause / Hold command is running then)
+        if rng.random() < 0.25 and t_stop > 4:
+            at(rng.randrange(2, t_stop), ["user", rng.choice(["Pause", "Hold"])])
         # commands from the user's command buttons: accepted in every engine state, also between the two phases of
         # Stop / Restart (t_stop + 1) and when no run is active
-        for _ in range(rng.choice([0, 0, 1, 1, 2])):
-            at(rng.choice([t_stop + 1, t_stop + 1, t_stop, rng.randrange(2, ticks - 2)]),
+        for _ in range(rng.choice([0, 0, 0, 0, 0, 1, 1, 2])):
+            at(rng.choice([t_stop + 1, t_stop, rng.randrange(2, ticks - 2), rng.randrange(2, ticks - 2)]),
                ["user", rng.choice(["CmdA", "CmdB", "CmdC", "CmdD"])])
     else:  # c12: requests against every item of the run log, offered or not
         for _ in range(rng.randrange(1, 6)):
@@ -154,7 +173,8 @@ def engine_monitor(ctx: Check, kind: str, n: int, oracle: Callable[[dict, dict],
     def run(case):
         if kind == "c10" and any(op == ["user", "Restart"] for ops in case["sched"].values() for op in ops):
             from harness.cmd_engine import reference_inits
-            case = dict(case, _reference=reference_inits(case))
+            from harness.cmd_engine import reference_delay
+            case = dict(case, _reference=reference_inits(case), _reference_delay=reference_delay(case))
         res = execute(case)
         ctx.count("engine-run")
         if any(len([e for e in t["events"] if e[1] == "exec"]) >= 2 for t in res["ticks"]):
@@ -165,7 +185,7 @@ def engine_monitor(ctx: Check, kind: str, n: int, oracle: Callable[[dict, dict],
             if "result" in r and r["op"][0] in ("cancel", "force"):
                 ctx.count(f"engine-{r['op'][0]}:{'accepted' if r['result'] == 'ok' else 'rejected'}")
         found = oracle(case, res)
-        pub = {k: v for k, v in case.items() if k != "_reference"}
+        pub = {k: v for k, v in case.items() if not k.startswith("_reference")}
         return [Failure(k, pub, d) for k, d in found[:3]] or None
     ctx.monitor(cases, run, impl_timeout=60.0)
 
@@ -192,7 +212,7 @@ def replay_case(obj: dict[str, Any], prop: str) -> int:
     lines = case["lines"] if isinstance(case, dict) else case
     from harness import cmdmgr_streams as S
     out = impl(lines)
-    mout = drive(DRIVER, [lines])[0]
+    mout = drive(DRIVER, [model(lines)])[0]
     for ln, a, m in zip(lines, out, mout):
         print(ln.replace("\t", " "))
         print("   impl :", a)
